@@ -431,6 +431,7 @@ class Skeletons:
         self.hdr = ""              # dataparser.h (member declarations), set by analyse()
         self.g3struct = ""         # body of struct DataParser_g3
         self.streams = {}          # per function being translated (rich mode): stream variable -> [source, used?]
+        self.lit_decl = {}         # deg2gon / IsFloat / IsInteger declared as modelled (set by analyse())
 
     def is_data_only(self, text):
         if re.search(r"\b(" + "|".join(self.CONTROL_WORDS) + r")\b", text):
@@ -561,6 +562,8 @@ class Skeletons:
             # else: the stream has been read before (g3_obs_cov) / is not over the element text: stays an oracle bit
         elif "pure_data" in n:
             fail(f"{w}: unrecognised condition with pure_data: {n[:100]}")
+        elif self.lit_cond(n, f) is not None:
+            desc = self.lit_cond(n, f)
         else:
             m = re.fullmatch(r"!\(([^()]*>>[^()]*)\)", n)
             if m:
@@ -579,6 +582,36 @@ class Skeletons:
         self.note_streams(cond, f)
         return desc
 
+    def lit_cond(self, n, f):
+        """`[!]deg2gon(text_buffer, x)` (gon2deg.h: the string is taken BY VALUE) and `[!]IsFloat(b, e)` / `[!]IsInteger(b, e)`
+        (intfloat.h, iterator versions, which trim themselves) with `b`, `e` = begin / end of text_buffer, moved only by
+        TrimWhiteSpaces(b, e) before the test -> ('lit', kind, neg); the recognisers are Lit.deg2gonAccepts / Lit.isFloat /
+        Lit.isInteger of Model/Literals.lean (tied to gon2deg.cpp / intfloat.h by the literal stream of C11)"""
+        m = re.fullmatch(r"(!?)deg2gon\(text_buffer,[\w.]+\)", n)
+        if m:
+            if not self.lit_decl.get("deg2gon"):
+                return None
+            return ("lit", "deg2gon", m.group(1) == "!")
+        m = re.fullmatch(r"(!?)(IsFloat|IsInteger)\((\w+),(\w+)\)", n)
+        if m and self.lit_decl.get(m.group(2)):
+            b, e = m.group(3), m.group(4)
+            body = norm(f.body)
+            pos = body.find("if(" + n + ")")
+            if pos < 0:
+                return None
+            pre = body[:pos]
+            # everything before the test that mentions b or e: the two declarations, TrimWhiteSpaces(b,e), a copy std::string(b,e)
+            pre2 = pre
+            for ok in (f"std::string::const_iterator {b}=text_buffer.begin();", f"std::string::const_iterator {e}=text_buffer.end();",
+                       f"TrimWhiteSpaces({b},{e});", f"std::string({b},{e})"):
+                if ok.startswith("std::string::const_iterator") and pre2.count(ok) != 1:
+                    return None
+                pre2 = pre2.replace(ok, "")
+            if re.search(r"(?<![\w.>])(" + re.escape(b) + "|" + re.escape(e) + r")(?!\w)", pre2) or "text_buffer" in pre2:
+                return None
+            return ("lit", "isFloat" if m.group(2) == "IsFloat" else "isInteger", m.group(1) == "!")
+        return None
+
     TEXT_READS = ("c_str", "size", "begin", "end", "empty", "length")
 
     def text_op(self, t, f):
@@ -587,6 +620,20 @@ class Skeletons:
         n = norm(t)
         if n in ("text_buffer.clear()", "text_buffer.erase()"):
             return ("clearText",)
+        # a data-only member function that works on text_buffer (g3a_text_string / _float / _integer): its body is translated in place
+        # (straight-line: no `return` inside, no control effect); any other mention of such a function is refused
+        for nm in sorted(self.names - self.control):
+            if not re.search(r"(?<![:.>\w])" + re.escape(nm) + r"\s*\(", t):
+                continue
+            cands = [k for k in self.by if k[0] == nm]
+            if not any("text_buffer" in self.by[k].body for k in cands):
+                continue
+            if not re.fullmatch(re.escape(nm) + r"\s*\((.*)\)", t.strip(), re.S) or len(cands) != 1 or cands[0][1] == "start":
+                fail(f"{self.where(f)}: call of {nm}() (which works on text_buffer) in a position that is not modelled: {t[:80]}")
+            p = self.prog(*cands[0])
+            if erase(p) != SKIP or uses(p, ("ret",)):
+                fail(f"{self.where(f)}: {nm}() works on text_buffer and has a control effect / a return: not modelled")
+            return p
         for m in re.finditer(r"\btext_buffer\b\s*(\+=|=(?!=)|\.\s*(\w+))", t):
             if m.group(2) in self.TEXT_READS:
                 continue
@@ -688,6 +735,8 @@ class Skeletons:
             if self.is_data_only(cond):
                 if self.rich:
                     if erase(then) == SKIP and erase(els) == SKIP:
+                        if then == els:
+                            return then          # the same text-buffer operations on both branches (g3a_x_flt)
                         if then != SKIP or els != SKIP:
                             fail(f"{w}: text_buffer is changed under a condition that has no control effect: {cond[:80]}")
                         return SKIP
@@ -992,6 +1041,14 @@ def analyse(repo):
     # the same handlers once more with the data-dependent conditions described and the text-buffer operations kept
     sk.rich = True
     sk.hdr = hdr
+    lib = Path(repo) / "lib" / "gnu_gama"
+    g2d = strip_comments((lib / "gon2deg.h").read_text(errors="replace")) if (lib / "gon2deg.h").exists() else ""
+    inf = strip_comments((lib / "intfloat.h").read_text(errors="replace")) if (lib / "intfloat.h").exists() else ""
+    sk.lit_decl = {
+        "deg2gon": bool(re.search(r"\bbool\s+deg2gon\s*\(\s*std::string\s*,\s*double\s*&\s*\)", g2d)),
+        "IsFloat": bool(re.search(r"template\s*<typename Iterator>\s*bool\s+IsFloat\s*\(\s*Iterator\s*&\s*b\s*,\s*Iterator\s+e\s*\)\s*\{\s*using namespace std;\s*TrimWhiteSpaces\(b, e\);", inf)),
+        "IsInteger": bool(re.search(r"template\s*<typename Iterator>\s*bool\s+IsInteger\s*\(\s*Iterator\s*&\s*b\s*,\s*Iterator\s+e\s*\)\s*\{\s*using namespace std;\s*TrimWhiteSpaces\(b, e\);", inf)),
+    }
     g3src = dict(files)["dataparser_g3.cpp"]
     m = re.search(r"\bstruct\s+DataParser_g3\s*\{", g3src)
     if not m:
@@ -1206,6 +1263,8 @@ def generate(repo):
 def cond_lean(c):
     if c[0] == "other":
         return ".other"
+    if c[0] == "lit":
+        return f"(.lit .{c[1]} {'true' if c[2] else 'false'})"
     ks = "[" + ", ".join("." + k for k in c[2]) + "]"
     if c[0] == "fails":
         return f"(.fails .{c[1]} {ks})"
@@ -1236,7 +1295,7 @@ def conds_of(p, out):
     if p[0] == "ifData" and len(p) == 4:
         out.append(p[1])
     for x in p[1:]:
-        if isinstance(x, tuple) and x and isinstance(x[0], str) and x[0] not in ("pure", "fails", "other"):
+        if isinstance(x, tuple) and x and isinstance(x[0], str) and x[0] not in ("pure", "fails", "other", "lit"):
             conds_of(x, out)
     return out
 
@@ -1270,14 +1329,21 @@ def generate_conds(repo, a=None):
     A("inductive Guard where | none | modelNonNull | data")
     A("  deriving DecidableEq, Repr, Inhabited")
     A("")
+    A("/-- a recogniser of gon2deg.h / intfloat.h applied to the whole `text_buffer`: `deg2gon(text_buffer, x)` (string by value),")
+    A("    `IsFloat(b, e)` / `IsInteger(b, e)` with `b`, `e` = `text_buffer.begin()` / `.end()` (moved only by `TrimWhiteSpaces(b, e)`) -/")
+    A("inductive LitKind where | deg2gon | isFloat | isInteger")
+    A("  deriving DecidableEq, Repr, Inhabited")
+    A("")
     A("/-- a data-dependent condition of a handler (`Prog.ifData`):")
     A("    `pure src chain g neg` = `[!] ( [g &&] pure_data(istr >> x1 >> … >> xn) )`, `istr` a stream over `src` not read before;")
     A("    `fails src chain`      = `!(istr >> x1 >> … >> xn)` (only the failure of the extractions is tested);")
+    A("    `lit k neg`            = `[!] k(text_buffer)`, `k` one of the recognisers `LitKind`;")
     A("    `other`                = anything else: counters, null pointers, comparisons of values, exceptions of the matrix code,")
     A("                             a stream that was read before (`g3_obs_cov`), loops -/")
     A("inductive Cond where")
     A("  | pure (src : Src) (chain : List XKind) (g : Guard) (neg : Bool)")
     A("  | fails (src : Src) (chain : List XKind)")
+    A("  | lit (k : LitKind) (neg : Bool)")
     A("  | other")
     A("  deriving DecidableEq, Repr, Inhabited")
     A("")
